@@ -179,6 +179,25 @@ def run(tier):
         if f[1].split(" stderr=")[0] != e[1].split(" stderr=")[0]:
             ck.violation("split-behaves-differently", "multi-module program behaves differently from the single file",
                          "modules:\n%s\nmulti : %s\nsingle: %s" % (src, f[1], e[1]))
+    # hygiene of exported items: a public constant / function signature that mentions a PRIVATE name of its module
+    # keeps meaning that name (the single-file program has the two private names apart), whatever private item
+    # of the same name the importer has (D63)
+    hyg = []
+    for hi, (lib, main_, want) in enumerate([
+        ("const BASE: i32 = 5;\npub const LIMIT: i32 = BASE + 1;\npub fn lib_limit() -> i32\n{\n\treturn: LIMIT\n}\n",
+         "const BASE: i32 = 100;\nfn main() -> i32\n{\n\tvar a = lib_limit();\n\tprint!(LIMIT, \" \", a, \" \", BASE, \"\\n\");\n\treturn: 0\n}\n", "6 6 100"),
+        ("const N: usize = 3;\npub fn len_p(x: &[N]i32) -> usize\n{\n\treturn: |x|\n}\n",
+         "const N: usize = 5;\nfn main() -> i32\n{\n\tvar a: [3]i32 = [1, 2, 3];\n\tprint!(len_p(&a), \" \", N, \"\\n\");\n\treturn: 0\n}\n", "3 5")]):
+        for order in (0, 1):
+            mods = [("lib.pn", lib), ("main.pn", 'import "lib.pn";\n' + main_)]
+            if order: mods.reverse()
+            hyg.append(("hy%d.%d" % (hi, order), "".join("//// module %s\n%s" % m for m in mods), want))
+    himpl = C.run_harness("exec", [(h[0], h[1]) for h in hyg], ck.work + "/hygiene", timeout=600)
+    for cid, src, want in hyg:
+        f = himpl.get(cid, ["missing"])
+        got = C.unesc(f[1].split(" out=", 1)[1].split(" stderr=")[0]).decode(errors="replace").strip() if f[0].startswith("ok") and " out=" in f[1] else f[0]
+        if got != want:
+            ck.violation("private-name-captured-by-exported-item", "an exported constant / signature that uses a private name of its module is re-read in the importer's scope: the program prints `%s`, the single-file meaning is `%s`" % (got, want), src)
     rejected_priv = 0
     for cid, src in privacy:
         f = impl2.get(cid, ["missing"])
